@@ -23,7 +23,6 @@ func TestVerifReplayC03(t *testing.T) {
 	})
 }
 
-
 // TestVerifBoundedC03: C03 is decided deductively; this is an end-to-end cross-check of the public API.
 func TestVerifBoundedC03(t *testing.T) {
 	check := func(out string) (bool, string) {
